@@ -183,6 +183,78 @@ def check_gsd_generator(levels, r):
     return out
 
 
+MIXED_LEVELS = [
+    # level lists that are no homogeneous float lists: the design returns the GIVEN levels
+    ([1, 2.5], [2 ** 53 + 1, 0.5]), ([2 ** 53 + 1, 2 ** 53 + 2], [1.5, 2.5]), ([2 ** 63, 2 ** 63 + 1, -2 ** 63 - 1],),
+    (["steel", "copper"], [1, 2, 3]), (["steel", 1.5], [0.25, 0.75]), ([None, 1.0], [True, 2.5]),
+    ([(1, 2), (3, 4)], [0.5, 1.5]), ([(1, 2), (3, 4, 5)], [0.5]), ([0.1, 1 / 3.0, 5e-324, 1.7976931348623157e308],),
+    ([1, 2, 3], [10 ** 30, 10 ** 30 + 1]), ([3, 1, 2], [2.0, 1.0]), ([1e16, 1e16 + 2.0], [1, 1e16]),
+]
+
+
+def check_mixed_levels(k):
+    from artap.operators import FullFactorLevelsGenerator
+    values = MIXED_LEVELS[k]
+    g = FullFactorLevelsGenerator(params(len(values)))
+    g.init([list(v) for v in values])
+    try:
+        rows = g.generate()
+    except Exception as e:
+        return [("C13:fullfact-levels:exception:%s" % type(e).__name__, "levels %r raised %r" % (values, e))]
+    try:
+        exp = Counter(itertools.product(*values))
+        got = Counter(tuple(r) for r in rows)
+    except TypeError as e:
+        return [("C13:fullfact-levels:levels-mangled", "levels %r came back as %r (%r)" % (values, rows[:3], e))]
+    if got != exp:
+        return [("C13:fullfact-levels:not-the-given-levels", "levels %r: got rows %r ..." % (values, rows[:4]))]
+    return []
+
+
+def doe_calls():
+    """Direct calls of the design functions: (label, thunk)."""
+    import artap.doe as doe
+    calls = []
+    for n in range(1, 24):
+        calls.append(("pbdesign(%d)" % n, lambda n=n: doe.pbdesign(n)))
+    for n in (3, 4, 5, 6, 7):
+        calls.append(("bbdesign(%d)" % n, lambda n=n: doe.bbdesign(n)))
+        calls.append(("bbdesign(%d, center=1)" % n, lambda n=n: doe.bbdesign(n, center=1)))
+    for lv in ((2, 2), (3, 2, 2), (2, 3, 4), (4,)):
+        calls.append(("fullfact(%r)" % (lv,), lambda lv=lv: doe.fullfact(list(lv))))
+    for n in (1, 2, 3, 5):
+        calls.append(("ff2n(%d)" % n, lambda n=n: doe.ff2n(n)))
+    for lv, r in (((3, 3, 3), 3), ((2, 3, 4), 2), ((4, 4, 2), 2), ((3, 3), 2)):
+        calls.append(("build_gsd(%r, %d)" % (lv, r), lambda lv=lv, r=r: doe.build_gsd(list(lv), r)))
+    return calls
+
+
+def check_scribble(label, thunk, other):
+    """The caller owns what a design function returns: overwriting it must not change what later calls return."""
+    import numpy as np
+    try:
+        first = thunk()
+        keep = np.array(first, dtype=float, copy=True)
+        if isinstance(first, np.ndarray):
+            try:
+                first[...] = 7.0
+            except ValueError:
+                pass                       # a read-only result cannot be scribbled on: fine
+        if other is not None:
+            o = other()
+            if isinstance(o, np.ndarray):
+                try:
+                    o[...] = -3.0
+                except ValueError:
+                    pass
+        second = np.array(thunk(), dtype=float, copy=True)
+    except Exception as e:
+        return [("C13:doe:exception:%s" % type(e).__name__, "%s raised %r" % (label, e))]
+    if keep.shape != second.shape or not (keep == second).all():
+        return [("C13:doe:result-changed-after-caller-overwrote-earlier-result", "%s: second call differs from the first after the caller overwrote the first result in place" % label)]
+    return []
+
+
 def _shard(shard, col: Collector):
     kind = shard[0]
 
@@ -207,12 +279,32 @@ def _shard(shard, col: Collector):
             for center in (False, True):
                 if not (center and n == 8):
                     rec("ff", {"n": n, "center": center, "shift": 1}, check_fullfact(n, center, 1), True)
+        for k in range(len(MIXED_LEVELS)):
+            rec("fflmixed", {"k": k}, check_mixed_levels(k), True)
         col.sample({"kind": "full-factorial-levels", "shape": [2, 4, 3]}, 1)
     elif kind == "pb":
         for n in range(1, 24):
             for shift in range(len(BOXES)):
                 rec("pb", {"n": n, "shift": shift}, check_pb(n, shift), n > 1)
         col.sample({"kind": "plackett-burman", "factors": 11, "runs": 12}, 1)
+    elif kind == "scribble":
+        calls = doe_calls()
+        for i, (label, thunk) in enumerate(calls):
+            for other in (None, calls[(i + 1) % len(calls)][1], calls[i - 1][1]):
+                rec("scribble", {"i": i, "other": None if other is None else "neighbour"}, check_scribble(label, thunk, other), True)
+        # the generators built on them: the first design is checked, its rows overwritten, a second design checked again
+        for n in range(1, 24):
+            from artap.operators import PlackettBurmanGenerator
+            try:
+                rows = PlackettBurmanGenerator(params(n, 0)).generate()
+            except Exception as e:
+                rec("pb", {"n": n, "shift": 0}, [("C13:pb:exception:%s" % type(e).__name__, "Plackett-Burman n=%d raised %r after earlier results were overwritten by their caller" % (n, e))], True)
+                continue
+            for r in rows:
+                for j in range(len(r)):
+                    r[j] = 12345.0
+            rec("pb", {"n": n, "shift": 0}, check_pb(n, 0), True)
+        col.sample({"kind": "caller overwrites returned designs", "functions": len(calls)}, 1)
     elif kind == "bb":
         _, n = shard
         for shift in range(len(BOXES)):
@@ -238,6 +330,15 @@ def replay(sub, case):
         return check_pb(case["n"], case["shift"])
     if sub == "bb":
         return check_bb(case["n"], case["shift"])
+    if sub == "fflmixed":
+        return check_mixed_levels(case["k"])
+    if sub == "scribble":
+        calls = doe_calls()
+        i = case["i"]
+        out = []
+        for other in (None, calls[(i + 1) % len(calls)][1], calls[i - 1][1]):
+            out += check_scribble(calls[i][0], calls[i][1], other)
+        return out
     if sub == "gsd":
         return check_gsd(tuple(case["levels"]), case["r"], case["complementary"])
     if sub == "gsdgen":
@@ -246,7 +347,7 @@ def replay(sub, case):
 
 
 def run(tier, seed):
-    shards = [("ff",), ("pb",)] + [("bb", n) for n in (3, 4, 5, 6, 7, 8) + ((9, 10) if tier == "thorough" else ())]
+    shards = [("ff",), ("pb",), ("scribble",)] + [("bb", n) for n in (3, 4, 5, 6, 7, 8) + ((9, 10) if tier == "thorough" else ())]
     for nf in (2, 3, 4) + ((5,) if tier == "thorough" else ()):
         for first in (2, 3, 4, 5):
             shards.append(("gsd", nf, first))
